@@ -187,11 +187,14 @@ class World:
         follow = False
         if k in ("L", "M"):
             sub = Sub("add", op)
+            # every order comes from a different agent, with agent ids DEcreasing in submission order
+            # (priority and prices must not depend on who submitted)
+            aid = 1000 - len(self.entries)
             if k == "L":
-                o = Order(0, 0, op[1], LIMIT_ORDER, op[3], price=float(op[2]), ttl=op[4])
+                o = Order(aid, 0, op[1], LIMIT_ORDER, op[3], price=float(op[2]), ttl=op[4])
                 sub_price = float(op[2])
             else:
-                o = Order(0, 0, op[1], MARKET_ORDER, op[2], ttl=op[3])
+                o = Order(aid, 0, op[1], MARKET_ORDER, op[2], ttl=op[3])
                 sub_price = None
             sub.order = o
             self._snap(sub)
@@ -391,6 +394,8 @@ SEED_BOOKS = {
     "empty": [],
     # a plain two-sided quote, never traded (market price follows the mid)
     "two_sided_no_trade": [L(B, 98, 1), L(S, 102, 1)],
+    # quotes built while the market was NOT running (market price frozen at 100, mid 100.5), switched on, never traded
+    "quoted_while_off": [("R",), L(B, 99, 1), L(S, 102, 1), ("R",)],
     # three-level two-sided book
     "deep": [L(B, 99, 1), L(B, 99, 2), L(B, 98, 1), L(S, 101, 1), L(S, 101, 2), L(S, 102, 1)],
     # one-sided ladders whose arrival order makes the heap array non-sorted (witness for a missing
